@@ -1,6 +1,7 @@
 (** C18 — Invalid configurations are rejected up front; valid ones always run. Statements only. *)
 From Coq Require Import List Bool Arith ZArith QArith String.
-From Tempest Require Import Model.Config Proofs.Config Link.Config Model.Cluster Proofs.Cluster.
+From Coq Require Import Qround.
+From Tempest Require Import Model.Config Proofs.Config Link.Config Model.Cluster Proofs.Cluster Model.KernelLoop Proofs.KernelLoop.
 Import ListNotations.
 
 (** the validator is neither weaker nor stricter than the documented constraints *)
@@ -26,6 +27,14 @@ Theorem C18_cadence_hazard_free : forall every flags it fitted,
   trainer_run true every it flags fitted <> PredictOnUnfitted.
 Proof. intros. apply never_unfitted. Qed.
 Print Assumptions C18_cadence_hazard_free.
+
+(** liveness of the kernel: for every acceptance / step-size history (the adaptive step count is an arbitrary oracle) the inner
+    MCMC loop stops within max(1, floor(n_max_steps * n_dim)) iterations - a valid configuration cannot hang inside a kernel call *)
+Theorem C18_kernel_loop_terminates : forall smin smax oracle fuel,
+  (Z.to_nat (Z.max 1 (Qfloor smax)) <= fuel)%nat ->
+  exists it, kernel_loop fuel 0 smin smax oracle = Some it /\ (1 <= it <= Z.max 1 (Qfloor smax))%Z.
+Proof. exact kernel_loop_terminates. Qed.
+Print Assumptions C18_kernel_loop_terminates.
 
 Example C18_instances :
   accepts (mkConfig (PInt 2) PNone (PFloat (2#1)) PNone "tpcn" "mult" false false (Some [PInt 0]) (Some [PInt 1])) = true
